@@ -223,7 +223,9 @@ def run(tier="quick", seed=0):
                 st["failed_ok"] += 1
             return None
         except Exception as e:        # noqa
-            record("wrong_failure", "%s: %s (only MachineHasDisconnectedSubregion is a permitted failure)" % (type(e).__name__, e),
+            # an AssertionError is the repair loop tripping over its own duplicated edge (cf. chip_twice): own clause
+            record("wrong_failure_assertion" if isinstance(e, AssertionError) else "wrong_failure",
+                   "%s: %s (only MachineHasDisconnectedSubregion is a permitted failure)" % (type(e).__name__, e),
                    describe(w, h, torus, dl, dc, descs, radius, sd), size)
             return None
         out = []
